@@ -67,6 +67,8 @@ type scenario struct {
 	srcLocal  bool
 	dstLocal  bool
 	peering   bool // both info fields carry the Peer flag; the local hop is one of the two peering hops
+	expireSeg int  // 1+index of the segment whose local hop is expired although its MAC is valid (0: none)
+	expireAt  uint32 // if non-zero: that hop expires at this Unix time (else: long ago)
 	validated int  // absolute index of the hop validated last in this AS
 }
 
@@ -290,6 +292,16 @@ func (a *asCfg) buildPathTs(r *vlib.Rand, sc scenario, local [2]path.HopField, t
 	if fixTs0 {
 		dec.InfoFields[0].Timestamp = ts
 	}
+	expExp := uint8(r.Range(0, 5))
+	if sc.expireSeg > 0 {
+		// (exp+1)*337.5 s after the info timestamp; by default the timestamp is 3000 s old
+		old := nowSec() - 3000
+		if sc.expireAt != 0 {
+			expExp = 3
+			old = sc.expireAt - 1350
+		}
+		dec.InfoFields[sc.expireSeg-1].Timestamp = old
+	}
 	dec.PathMeta.CurrINF = uint8(sc.curSeg)
 	dec.PathMeta.CurrHF = uint8(sc.curHop)
 	for i := 0; i < tot; i++ {
@@ -300,6 +312,9 @@ func (a *asCfg) buildPathTs(r *vlib.Rand, sc scenario, local [2]path.HopField, t
 	ingress := a.ingressOf(sc.via)
 	setLocal := func(idx, seg int, h path.HopField, arrival bool) {
 		h.ExpTime = uint8(r.Range(20, 255))
+		if sc.expireSeg == seg+1 {
+			h.ExpTime = expExp
+		}
 		inf := &dec.InfoFields[seg]
 		beta := inf.SegID // the SegID the MAC is verified with
 		full := hopMacFull(a.key, beta, inf.Timestamp, h.ExpTime, h.ConsIngress, h.ConsEgress)
@@ -344,10 +359,26 @@ func (a *asCfg) validatedAuth(b *builtPath) []byte {
 
 // validEpic builds a fresh EPIC packet with both hop validation fields valid for the hop validated last.
 func (a *asCfg) validEpic(r *vlib.Rand, sc scenario, hops [2]path.HopField, nowNs int64) []byte {
+	e, _ := a.validEpicTwin(r, sc, hops, nowNs)
+	return e
+}
+
+// validEpicTwin returns the EPIC packet and the same packet with a plain SCION path.
+func (a *asCfg) validEpicTwin(r *vlib.Rand, sc scenario, hops [2]path.HopField, nowNs int64) ([]byte, []byte) {
 	target := nowNs - 1e9
 	ts0 := uint32(target/1e9) - uint32(r.Range(1, 100))
+	if sc.expireSeg == 1 {
+		ts0 = nowSec() - 3000
+		if sc.expireAt != 0 {
+			ts0 = sc.expireAt - 1350
+		}
+	}
 	epicTS := uint32((target-int64(ts0)*1e9)/21000 - 1)
 	b := a.buildPathTs(r, sc, hops, ts0, true)
+	if sc.expireSeg == 1 {
+		ts0 = b.dec.InfoFields[0].Timestamp
+		epicTS = uint32((target-int64(ts0)*1e9)/21000 - 1)
+	}
 	auth := a.validatedAuth(b)
 	srcHost := randHost(r)
 	pld := r.Bytes(r.Range(0, 20))
@@ -357,7 +388,7 @@ func (a *asCfg) validEpic(r *vlib.Rand, sc scenario, hops [2]path.HopField, nowN
 	h0, _ := parseRawHdr(raw0)
 	good := epicMacOwn(auth, h0.srcType, ts0, epicTS, ctr, h0.srcIA, h0.srcAddr, uint16(h0.payloadLen))
 	eh.PHVF, eh.LHVF = good, append([]byte(nil), good...)
-	return b.packet(r, eh, srcHost, nil, 0, pld)
+	return b.packet(r, eh, srcHost, nil, 0, pld), b.packet(r, nil, srcHost, nil, 0, pld)
 }
 
 // packet serialises the path as a SCION-path packet (epicHdr nil) or as an EPIC packet.
